@@ -124,13 +124,14 @@ Qed.
 
 (* what an invocation can be: a listing that runs nothing, or runTasks on some request *)
 Lemma invoke_cases pick defs vars s f req s' ob : invoke pick defs vars s f req = (s', ob) ->
-  (ob_executed ob = [] /\ ob_exit ob = 0 /\ ob_error ob = None /\ forall rs, ob_stdout ob <> SDJson rs) \/
+  (ob_executed ob = [] /\ forall rs, ob_stdout ob <> SDJson rs) \/
   (exists req', run_req pick defs s f req' = (s', ob)).
 Proof.
   unfold invoke. intros H.
+  destruct (f_quiet f && f_debug f) eqn:QD; [inversion H; subst; left; cbn; split; [reflexivity|discriminate]|].
   assert (L : forall d x, (forall rs, d <> SDJson rs) -> (x, {| ob_exit := 0; ob_error := None; ob_stdout := if f_quiet f || f_json f then SDNothing else d; ob_executed := [] |}) = (s', ob) ->
-     ob_executed ob = [] /\ ob_exit ob = 0 /\ ob_error ob = None /\ forall rs, ob_stdout ob <> SDJson rs).
-  { intros d x Hd E. inversion E; subst. cbn. repeat split. intros rs. destruct (f_quiet f || f_json f); [discriminate|apply Hd]. }
+     ob_executed ob = [] /\ forall rs, ob_stdout ob <> SDJson rs).
+  { intros d x Hd E. inversion E; subst. cbn. split; [reflexivity|]. intros rs. destruct (f_quiet f || f_json f); [discriminate|apply Hd]. }
   destruct (f_vars f); [left; eapply L; [|exact H]; discriminate|].
   destruct (f_clean f).
   { destruct (has_task defs clean_name); [right; eauto|left; eapply L; [|exact H]; discriminate]. }
@@ -180,7 +181,8 @@ Proof.
       split; [|exact Hst]. unfold mk_res. cbn [tr_cmds]. rewrite Hs, Hn, Hd. exact Hc. }
     split; [apply failing_command_fails; exact HF|]. right.
     destruct (ob_error (run_tasks_obs f (map (mk_res defs) rs) (rr_exec DI (run_i (f_force f) (beh_of defs) s order)))) as [e|] eqn:Ee.
-    + destruct e as [t c st|e|e].
+    + destruct e as [t c st|e|e|].
+      4: { exfalso. unfold run_tasks_obs in Ee. destruct (report (map (mk_res defs) rs)) as [ms [[[t c] s0]|]]; cbn in Ee; discriminate. }
       * destruct (failure_is_named _ _ _ _ _ _ Ee) as (Hst & r' & x & Hr' & Ht & Hx & Hc & Hs').
         apply in_map_iff in Hr'. destruct Hr' as (r0 & <- & Hr0). destruct (mk_res_cmds _ _ _ Hx) as (Sk & d' & Hd' & Hxd).
         cbn [mk_res tr_name] in Ht. exists t, c, st, d', x. rewrite <- Ht. repeat split; auto.
@@ -197,7 +199,7 @@ Theorem forced_invocation pick defs vars s f req s' ob rs :
   invoke pick defs vars s f req = (s', ob) -> f_force f = true -> ob_stdout ob = SDJson rs ->
   (forall r, In r rs -> tr_skipped r = false) /\ ob_executed ob = map tr_name rs.
 Proof.
-  intros H Hf HS. destruct (invoke_cases _ _ _ _ _ _ _ _ H) as [(_ & _ & _ & N)|(req' & R)]; [exfalso; exact (N rs HS)|].
+  intros H Hf HS. destruct (invoke_cases _ _ _ _ _ _ _ _ H) as [(_ & N)|(req' & R)]; [exfalso; exact (N rs HS)|].
   destruct (run_req_cases _ _ _ _ _ _ _ R) as [(_ & _ & E & _)|[(order & e & _ & _ & E & _)|(order & rs0 & Eo & ->)]]; try congruence.
   rewrite Hf in Eo. destruct (force_runs_everything DI deqb_i None digest_i deqb_i_spec digest_i_ne (beh_of defs) s order rs0 Eo) as [A B].
   fold run_i in B. pose proof (run_results_names DI deqb_i None digest_i true (beh_of defs) s order rs0 Eo) as Nn.
@@ -227,7 +229,7 @@ Theorem vars_listing pick defs vars s f req :
   invoke pick defs vars s f req = (s, {| ob_exit := 0; ob_error := None; ob_stdout := SDVars (sort_vars vars); ob_executed := [] |})
   /\ Permutation vars (sort_vars vars) /\ StronglySorted (fun a b => fst a <= fst b) (sort_vars vars).
 Proof.
-  intros V Q J. unfold invoke. rewrite V, Q, J. cbn [orb]. split; [reflexivity|]. split; [apply sort_vars_perm|].
+  intros V Q J. unfold invoke. rewrite V, Q, J. cbn [orb andb]. split; [reflexivity|]. split; [apply sort_vars_perm|].
   induction vars as [|x l IH]; cbn [sort_vars fold_right]; [constructor|apply insert_v_sorted; exact IH].
 Qed.
 
@@ -237,7 +239,7 @@ Theorem json_lists_the_run pick defs vars s f req s' ob rs :
   ob_exit ob = 0 /\ exists order, map tr_name rs = order /\
     (forall r, In r rs -> tr_skipped r = true -> tr_cmds r = []) /\ ~ has_failure rs.
 Proof.
-  intros H HS. destruct (invoke_cases _ _ _ _ _ _ _ _ H) as [(_ & _ & _ & N)|(req' & R)]; [exfalso; exact (N rs HS)|].
+  intros H HS. destruct (invoke_cases _ _ _ _ _ _ _ _ H) as [(_ & N)|(req' & R)]; [exfalso; exact (N rs HS)|].
   destruct (run_req_cases _ _ _ _ _ _ _ R) as [(_ & _ & E & _)|[(order & e & _ & _ & E & _)|(order & rs0 & Eo & ->)]]; try congruence.
   unfold run_tasks_obs in *.
   pose proof (report_spec (map (mk_res defs) rs0)) as Rp. destruct (report (map (mk_res defs) rs0)) as [ms bad]. cbn [snd] in Rp.
